@@ -2,6 +2,8 @@
    ExtrOcamlBasic only; no Extract Constant of our own. *)
 From Coq Require Extraction.
 From Coq Require Import ExtrOcamlBasic.
-From TI Require Import Bytes Tags BodyStruct.
+From TI Require Import Bytes Tags BodyStruct Builders.
 Extraction "extracted/model.ml" Bytes.bs Bytes.to_dec Bytes.dec Bytes.utf8_valid Tags.idgen_next Tags.tag_of
-  BodyStruct.build_map BodyStruct.candidates BodyStruct.label.
+  BodyStruct.build_map BodyStruct.candidates BodyStruct.label
+  Builders.quoted_string Builders.login Builders.list_cmd Builders.select Builders.examine Builders.encode_request
+  Builders.lex_command.
